@@ -23,8 +23,10 @@ import (
 //	 tgt: {loc, i} (the input message: msgs[i] of the file, or the imported imps[i]),
 //	 items: [{x, j, p}] (occurrences of string fields msgs[i].fields[j] / string extensions exts[j] with payload bytes p)}
 //
+// When the input message is an (imported) options message of descriptor.proto, the generated Go type is observed as well.
+//
 // Both files are built by protodesc.NewFile against the same environment, the input is rendered to wire bytes and
-// pushed through dynamic messages of both: out = {built, adec, aenc, bdec, benc, same, oa, ob}.
+// pushed through dynamic messages of both: out = {built, adec, aenc, bdec, benc, (agdec, agenc, bgdec, bgenc,) same, o*}.
 
 type xItem struct {
 	x bool
@@ -120,7 +122,8 @@ func buildSide(f *AFile, env *protoregistry.Files, loc bool, ti int, items []xIt
 	return s, ""
 }
 
-func (s *xside) observe(items []xItem) (o map[string]any) {
+// observe pushes the input through messages made by newMsg (dynamic, or the generated type of a linked message).
+func (s *xside) observe(items []xItem, newMsg func() proto.Message) (o map[string]any) {
 	defer func() {
 		if x := recover(); x != nil {
 			o = map[string]any{"panic": fmt.Sprint(x)}
@@ -133,7 +136,7 @@ func (s *xside) observe(items []xItem) (o map[string]any) {
 	}
 	o = map[string]any{"in": hex.EncodeToString(b)}
 	// decode
-	m := dynamicpb.NewMessage(s.md)
+	m := newMsg()
 	err := proto.UnmarshalOptions{AllowPartial: true, Resolver: s.types}.Unmarshal(b, m)
 	o["dec"] = err == nil
 	if err != nil {
@@ -147,20 +150,20 @@ func (s *xside) observe(items []xItem) (o map[string]any) {
 		o["jsonok"] = err == nil
 		if err == nil {
 			o["json"] = canonJSON(js)
-			y := dynamicpb.NewMessage(s.md)
+			y := newMsg()
 			err := protojson.UnmarshalOptions{AllowPartial: true, Resolver: s.types}.Unmarshal(js, y)
 			o["jsonrt"] = err == nil && proto.Equal(m, y)
 		}
 		tx, err := prototext.MarshalOptions{AllowPartial: true}.Marshal(m)
 		o["textok"] = err == nil
 		if err == nil {
-			y := dynamicpb.NewMessage(s.md)
+			y := newMsg()
 			err := prototext.UnmarshalOptions{AllowPartial: true, Resolver: s.types}.Unmarshal(tx, y)
 			o["textrt"] = err == nil && proto.Equal(m, y)
 		}
 	}
 	// encode: the message holding the given values, built through reflection
-	m2 := dynamicpb.NewMessage(s.md)
+	m2 := newMsg().ProtoReflect()
 	for k, it := range items {
 		fd := s.fds[k]
 		if fd.IsList() {
@@ -169,12 +172,22 @@ func (s *xside) observe(items []xItem) (o map[string]any) {
 			m2.Set(fd, protoreflect.ValueOfString(string(it.p)))
 		}
 	}
-	enc, err := proto.MarshalOptions{Deterministic: true, AllowPartial: true}.Marshal(m2)
+	enc, err := proto.MarshalOptions{Deterministic: true, AllowPartial: true}.Marshal(m2.Interface())
 	o["enc"] = err == nil
 	if err == nil {
 		o["encb"] = hex.EncodeToString(enc)
 	}
 	return o
+}
+
+// generatedType: the input message is a message linked into this binary (an options message of descriptor.proto) and
+// the environment hands out that very descriptor: the generated type with its table-driven codec can be observed too.
+func (s *xside) generatedType() protoreflect.MessageType {
+	mt, err := protoregistry.GlobalTypes.FindMessageByName(s.md.FullName())
+	if err != nil || mt.Descriptor() != s.md {
+		return nil
+	}
+	return mt
 }
 
 func xItems(v any) []xItem {
@@ -199,17 +212,34 @@ func execXlate(c core.Case, out core.Case) {
 		out["erra"], out["errb"] = erra, errb
 		return
 	}
-	oa, ob := a.observe(items), b.observe(items)
-	for _, o := range []map[string]any{oa, ob} {
+	dyn := func(s *xside) func() proto.Message {
+		return func() proto.Message { return dynamicpb.NewMessage(s.md) }
+	}
+	obs := map[string]map[string]any{"a": a.observe(items, dyn(a)), "b": b.observe(items, dyn(b))}
+	// option messages: also as the generated Go type (table-driven codec with dynamic extension types)
+	if !loc && f.Imps[ti-1].File == descriptorPath {
+		ga, gb := a.generatedType(), b.generatedType()
+		if ga == nil || gb == nil {
+			harnessBug("xlate: %s is not linked as a generated type from the environment's descriptor", a.md.FullName())
+		}
+		obs["ag"] = a.observe(items, func() proto.Message { return ga.New().Interface() })
+		obs["bg"] = b.observe(items, func() proto.Message { return gb.New().Interface() })
+	}
+	for _, o := range obs {
 		if p, ok := o["panic"]; ok {
 			out["panic"] = p
 			return
 		}
 	}
-	out["adec"], out["aenc"] = oa["dec"], oa["enc"]
-	out["bdec"], out["benc"] = ob["dec"], ob["enc"]
-	out["same"] = reflect.DeepEqual(core.Norm(oa), core.Norm(ob))
-	out["oa"], out["ob"] = oa, ob // diagnostics
+	same := true
+	for k, o := range obs {
+		out[k+"dec"], out[k+"enc"] = o["dec"], o["enc"]
+		out["o"+k] = o // diagnostics
+		if k[0] == 'a' {
+			same = same && reflect.DeepEqual(core.Norm(o), core.Norm(obs["b"+k[1:]]))
+		}
+	}
+	out["same"] = same
 }
 
 // ---- seeded generator
